@@ -112,7 +112,7 @@ def showObs (o : List Obs) : String :=
 
 def showOut : Outcome → String
   | .ok => "ok" | .typeError => "TypeError" | .optionsError => "OptionsError" | .keyError => "KeyError"
-  | .attributeError => "AttributeError"
+  | .attributeError => "AttributeError" | .valueError => "ValueError" | .runtimeError => "RuntimeError"
 
 def showRes (r : Res) : String :=
   showOut r.out ++ " " ++ showObs r.obs ++ " " ++ showStore r.st.opts ++ " " ++
@@ -144,6 +144,14 @@ def stepLine (st : St) (line : String) : St × String :=
   | ["merge", kw] => reply st ((parseKw kw).map (mergeN st))
   | ["set", d, specs] =>
       if d = "0" ∨ d = "1" then reply st ((parseSpecs specs).map fun s => setSpecsN st s (d == "1")) else (st, "bad-op")
+  | ["load", dir, getcwd, kw] =>
+      -- dir = "none" (no cwd argument) or the config directory; the environment as in `relpath`
+      match (if dir = "none" then some none else ((hexOr dir).bind decodeCps).map some), (hexOr getcwd).bind decodeCps, parseKw kw with
+      | some dir, some getcwd, some kw =>
+        let env : PathEnv := ⟨some ("/h/me/".toList.map Char.toNat),
+          fun n => if n = "root".toList.map Char.toNat then some ("/root".toList.map Char.toNat) else none, getcwd⟩
+        reply st (some (loadN env st dir kw))
+      | _, _, _ => (st, "bad-op")
   | ["relpath", cwd, rel, path] =>
       -- the harness fixes HOME=/h/me/ and relies on the password-database entry root -> /root
       match (hexOr cwd).bind decodeCps, (hexOr rel).bind decodeCps, (hexOr path).bind decodeCps with
